@@ -12,7 +12,7 @@ ID = "C07"
 LEAN_MODULES = ["Ebv.Props.C07"]
 MODEL_MODULES = ["Ebv.Model.PktVar"]
 DRIVER = "Drivers/C07.lean"
-THEOREMS = ["Ebv.C07.read_exact_partial", "Ebv.C07.read_full_refuted", "Ebv.C07.write_exact", "Ebv.C07.write_own_bytes",
+THEOREMS = ["Ebv.C07.read_exact", "Ebv.C07.read_old_refuted", "Ebv.C07.write_exact", "Ebv.C07.write_own_bytes",
             "Ebv.C07.write_then_slice", "Ebv.C07.guard_iff", "Ebv.C07.guard_covers"]
 TRUSTED = ["hand-written model Ebv.PktVar of the code emitted for packet-variable reads/writes/in-place updates, tied by exact correspondence "
            "with the real generated code (regenerated every run) executed in harness/vh/interp.py, for the whole format table",
@@ -132,7 +132,7 @@ def run_checks(ctx):
                 case = {"op": "read", "fmt": fmt, "long": long, "bytes": bs.hex(), "p": p, "via": op}
                 ctx.case(case, nontrivial=bool(bs[-1] & 0x80 or bs[0] & 0x80), kind=f"read{'64' if long else '32'}")
                 bits = 64 if long else 32
-                cls = "signed-explicit" if explicit and signed and 1 < n and 8 * n < bits else None
+                cls = None
                 # a 32-bit destination view only defines the low 32 bits of the register
                 ctx.require(r2 is not None and r2 % (1 << bits) == want % (1 << bits), "read does not give struct.unpack's value", case,
                             f"got {r2} want {want % (1 << bits)}", cls)
@@ -219,7 +219,7 @@ def replay(ctx, case):
         r0, out, r2 = execute(build(fmt, op, p), bytes(pkt))
         want, = struct.unpack(fmt if explicit else "=" + fmt, bs)
         bits = 64 if case["long"] else 32
-        cls = "signed-explicit" if explicit and fmt[-1].islower() and 1 < n and 8 * n < bits else None
+        cls = None
         ctx.require(r2 is not None and r2 % (1 << bits) == want % (1 << bits), "read does not give struct.unpack's value", case,
                     f"got {r2} want {want % (1 << bits)}", cls)
         return {"register": r2, "struct": want}
@@ -251,8 +251,8 @@ def replay(ctx, case):
 
 
 LEVEL_TEXT = ("Lean 4 proofs over a hand-written model of the code emitted for packet variables, for every byte string/value and the whole "
-              "format table: reads give struct.unpack's value (read_exact_partial: all formats except signed formats with an explicit byte order "
-              "read into a wider destination, which come out unsigned — refuted on a witness, known finding), "
+              "format table: reads give struct.unpack's value (read_exact: all 32 formats, full strength since the fix: commit that extends the sign "
+              "after the byte swap; the old order is kept as a refuted variant), "
               "writes store exactly struct.pack's bytes and touch no other byte, the "
               "guarded body runs iff len > N and accesses with p+n <= N+1 are in bounds. Tie: exact correspondence of the real generated code "
               "(regenerated from /repo every run, interpreted) with the model over all formats, destinations, offsets and boundary/random data.")
